@@ -142,7 +142,8 @@ def run_conn(ctx, proof_only=False):
                        "schedule": sched, "execution": hist, "harness_cmd": cmd, "how_to_rerun": rerun,
                        "executions_with_this_verdict": len(lst),
                        "theorem": "c03_conn_release_never_full needs completion queue capacity >= buffer_size + max_borrowed + 1; c03_conn_needs_plus_one: with one slot less this schedule shape makes release fail"})
-    if model_mm and not spec_mm:
+    ordering_only_with_witness = bool(getattr(ctx, "ra_witness", None)) and all("(ordering:" in m[2] for m in model_mm)
+    if model_mm and not spec_mm and not ordering_only_with_witness:
         lbl, cmd, line = model_mm[0]
         case_no = int(line.split("case=")[1].split()[0])
         hist = vlib.extract_case(cmd.split(), driver, case_no)
